@@ -17,9 +17,9 @@ FUNCTIONS_ENCODED = ["ThreadingApplication._wait_for_recv_msg / _wait_for_resp_m
                      "reader_survives: PeerConnection.__dispatch_message + Node._receive_message for 18 message kinds"]
 ASSUMPTIONS = ["a thread is its body function: a body that ends by an exception IS the thread dying", "handler threads run when the harness schedules them (between the steps of the scenario)",
                "Queue.put(timeout=5) on the slot queue -> non-blocking (Full = the 5 s timeout)"]
-BOUNDS = {"quick": "threading application: 2 requests with handler outcomes in {answer, None, raises, thread cannot be started} each, thread limit 0..2, connection loss before/after the handler for each request; I/O faults: {orderly close, reset, read error, write error} at {inside the CER header, mid-body, after the CER, while the CEA is being written, mid-request}; each followed by a reconnect-and-serve probe of limit+2 requests; reader survives one decoded message of 18 kinds x 5 defects x 7 states; races reader x I/O thread (error CEA then EOF / CER then EOF / CER of a stranger then EOF): every placement of 1 preemption, and of 2 preemptions with the first in steps 0..29 of <= 90",
-          "thorough": "3 requests; races with every placement of 2 preemptions"}
-OUTSIDE = ["races: 3+ preemptions, preemption inside a statement that does not mention shared state, the write worker as a third thread, accept()/EMFILE and other resource-exhaustion faults of the listener", "faults at every single byte offset (offsets grouped in classes)", "3 consecutive faults", "'slow' handlers", "OS-level preemption inside worker loops"]
+BOUNDS = {"quick": "threading application: 1..3 requests with handler outcomes in {answer, None, raises, thread cannot be started} each, thread limit 0..2, connection loss before/after the handler for each request; I/O faults: {orderly close, reset, read error, write error} after every byte offset of the stream CER + request (native after concretisation); each followed by a reconnect-and-serve probe of limit+2 requests; reader survives one decoded message of 18 kinds x 5 defects x 7 states; races reader x I/O thread (error CEA then EOF / CER then EOF / CER of a stranger then EOF): every placement of 1 preemption, and of 2 preemptions with the first in steps 0..29 of <= 90",
+          "thorough": "same, plus races with every placement of 2 preemptions"}
+OUTSIDE = ["races: 3+ preemptions, preemption inside a statement that does not mention shared state, the write worker as a third thread, accept()/EMFILE and other resource-exhaustion faults of the listener", "3 consecutive faults", "'slow' handlers", "OS-level preemption inside worker loops"]
 PEER = B.PEER_HOSTS[0]
 
 
@@ -107,26 +107,28 @@ def threading_app(limit: int, outs: List[int], lost: List[int]) -> bool:
     inputs = (limit, outs, lost)
     why = ""
     try:
-        b, app = _mk(limit_v, [o for o in outcomes if o != 3])
-        n, p = b.node, b.peers[0]
-        c, s = b.make_ready(p)
-        for i in range(len(outcomes)):
-            if c.ident not in n.connections:
-                c, s = b.make_ready(p)
-            b.inject(c, B.ccr(PEER, 100 + i, 100 + i))
-            if losts[i] == 2:
-                n.close_connection_socket(c, B.DISCONNECT_REASON_GONE_AWAY)
-            if not app._recv_msg_queue.empty():
-                WORLD.thread_start_fails = outcomes[i] == 3          # Thread.start raises RuntimeError (handled by the library)
-                try:
-                    WORLD.pump_queue(app._recv_msg_queue, app._wait_for_recv_msg)
-                finally:
-                    WORLD.thread_start_fails = False
-            if losts[i] == 1:
-                n.close_connection_socket(c, B.DISCONNECT_REASON_GONE_AWAY)
-            _pump_app(app)
-            B.drain(c)
-        why = _probe(b, app, limit_v, "after %r/%r" % (outcomes, losts))
+        # all inputs are fixed above: the rest of the path runs natively
+        with hx.untraced():
+            b, app = _mk(limit_v, [o for o in outcomes if o != 3])
+            n, p = b.node, b.peers[0]
+            c, s = b.make_ready(p)
+            for i in range(len(outcomes)):
+                if c.ident not in n.connections:
+                    c, s = b.make_ready(p)
+                b.inject(c, B.ccr(PEER, 100 + i, 100 + i))
+                if losts[i] == 2:
+                    n.close_connection_socket(c, B.DISCONNECT_REASON_GONE_AWAY)
+                if not app._recv_msg_queue.empty():
+                    WORLD.thread_start_fails = outcomes[i] == 3          # Thread.start raises RuntimeError (handled by the library)
+                    try:
+                        WORLD.pump_queue(app._recv_msg_queue, app._wait_for_recv_msg)
+                    finally:
+                        WORLD.thread_start_fails = False
+                if losts[i] == 1:
+                    n.close_connection_socket(c, B.DISCONNECT_REASON_GONE_AWAY)
+                _pump_app(app)
+                B.drain(c)
+            why = _probe(b, app, limit_v, "after %r/%r" % (outcomes, losts))
     except Exception as e:
         why = "worker thread body ended by %s: %s" % (type(e).__name__, str(e)[:80])
     return hx.check(inputs, (why,), ("",), "a worker died, capacity was lost, or a later peer is not served")
@@ -139,91 +141,88 @@ POINTS = ["in_cer_header", "in_cer_body", "after_cer", "in_request", "after_requ
 
 def io_fault(fault: int, point: int, second: int) -> bool:
     """
-    pre: fault == P["fault"] and 0 <= point < len(POINTS) and 0 <= second <= len(FAULTS)
+    pre: fault == P["fault"] and P["lo"] <= point < P["hi"] and 0 <= second <= len(FAULTS)
     post: _
     """
     hx.begin()
     f = FAULTS[P["fault"]]
-    pt = POINTS[hx.concretize_range(point, 0, len(POINTS))]
+    pt = hx.concretize_range(point, P["lo"], P["hi"])          # the fault strikes after pt bytes of the stream CER + request
     f2 = hx.concretize_range(second, 0, len(FAULTS) + 1)
     inputs = (fault, point, second)
     why = ""
     try:
-        h = H.Hist(init="fresh", persistent=False)
-        b, n = h.b, h.n
+        # all inputs are fixed above: the rest of the path runs natively
+        with hx.untraced():
+            h = H.Hist(init="fresh", persistent=False)
+            b, n = h.b, h.n
 
-        def strike(kind, sock):
-            if kind == "close":
-                sock.inq.append(b"")
-            elif kind == "reset":
-                sock.inq.append(real_socket.error(errno.ECONNRESET, "reset"))
-            elif kind == "read_error":
-                sock.inq.append(real_socket.error(errno.EIO, "io"))
-            else:
-                sock.send_plan.append(real_socket.error(errno.EPIPE, "pipe"))
-                sock.inq.append(b"")
+            def strike(kind, sock):
+                if kind == "close":
+                    sock.inq.append(b"")
+                elif kind == "reset":
+                    sock.inq.append(real_socket.error(errno.ECONNRESET, "reset"))
+                elif kind == "read_error":
+                    sock.inq.append(real_socket.error(errno.EIO, "io"))
+                else:
+                    sock.send_plan.append(real_socket.error(errno.EPIPE, "pipe"))
+                    sock.inq.append(b"")
 
-        def attempt(kind):
+            def attempt(kind):
+                s = VSock(WORLD)
+                b.listener.backlog.append(s)
+                h.settle()
+                cerb = B.cer(PEER, hbh=7, e2e=7).as_bytes()
+                req = B.ccr(PEER, 55, 55).as_bytes()
+                k = pt
+                if k < len(cerb):
+                    # the connection dies after k bytes of the CER
+                    if k:
+                        s.inq.append(cerb[:k])
+                        h.settle()
+                    strike(kind, s)
+                elif k == len(cerb):
+                    if kind == "write_error":
+                        s.send_plan.append(real_socket.error(errno.EPIPE, "pipe"))
+                    s.inq.append(cerb)
+                    h.settle()
+                    if kind != "write_error":
+                        strike(kind, s)
+                else:
+                    s.inq.append(cerb)
+                    h.settle()
+                    r = k - len(cerb)
+                    s.inq.append(req[:r])         # r == len(req): delivered to the (recording) application, not answered yet
+                    h.settle()
+                    strike(kind, s)
+                h.settle()
+            attempt(f)
+            if f2 < len(FAULTS):
+                attempt(FAULTS[f2])
+            # reconnect-and-serve probe through the real I/O loop
             s = VSock(WORLD)
             b.listener.backlog.append(s)
             h.settle()
-            cerb = B.cer(PEER, hbh=7, e2e=7).as_bytes()
-            if pt == "in_cer_header":
-                s.inq.append(cerb[:11])
-                h.settle()
-                strike(kind, s)
-            elif pt == "in_cer_body":
-                s.inq.append(cerb[:40])
-                h.settle()
-                strike(kind, s)
-            elif pt == "after_cer":
-                if kind == "write_error":
-                    s.send_plan.append(real_socket.error(errno.EPIPE, "pipe"))
-                s.inq.append(cerb)
-                h.settle()
-                if kind != "write_error":
-                    strike(kind, s)
-            else:
-                s.inq.append(cerb)
-                h.settle()
-                req = B.ccr(PEER, 55, 55).as_bytes()
-                if pt == "in_request":
-                    s.inq.append(req[:33])
-                    h.settle()
-                    strike(kind, s)
-                else:
-                    s.inq.append(req)
-                    h.settle()                      # delivered to the (recording) application; not answered yet
-                    strike(kind, s)
+            s.inq.append(B.cer(PEER, hbh=9001, e2e=9001).as_bytes())
             h.settle()
-        attempt(f)
-        if f2 < len(FAULTS):
-            attempt(FAULTS[f2])
-        # reconnect-and-serve probe through the real I/O loop
-        s = VSock(WORLD)
-        b.listener.backlog.append(s)
-        h.settle()
-        s.inq.append(B.cer(PEER, hbh=9001, e2e=9001).as_bytes())
-        h.settle()
-        got = [(m.header.command_code, getattr(m, "result_code", None)) for m in WORLD.frames(s.out)]
-        s.out = b""
-        if got != [(257, 2001)]:
-            why = "probe CER answered %r" % (got,)
-        else:
-            app = h.app
-            before = len(app.requests)
-            for i in range(2):
-                s.inq.append(B.ccr(PEER, 9100 + i, 9100 + i).as_bytes())
-                h.settle()
-            if len(app.requests) != before + 2:
-                why = "probe requests not delivered (%d of 2)" % (len(app.requests) - before)
+            got = [(m.header.command_code, getattr(m, "result_code", None)) for m in WORLD.frames(s.out)]
+            s.out = b""
+            if got != [(257, 2001)]:
+                why = "probe CER answered %r" % (got,)
             else:
-                for r in app.requests[-2:]:
-                    app.send_answer(app.generate_answer(r, result_code=2001))
-                h.settle()
-                got = [(m.header.hop_by_hop_identifier, getattr(m, "result_code", None)) for m in WORLD.frames(s.out)]
-                if got != [(9100, 2001), (9101, 2001)]:
-                    why = "probe answers on the wire: %r" % (got,)
+                app = h.app
+                before = len(app.requests)
+                for i in range(2):
+                    s.inq.append(B.ccr(PEER, 9100 + i, 9100 + i).as_bytes())
+                    h.settle()
+                if len(app.requests) != before + 2:
+                    why = "probe requests not delivered (%d of 2)" % (len(app.requests) - before)
+                else:
+                    for r in app.requests[-2:]:
+                        app.send_answer(app.generate_answer(r, result_code=2001))
+                    h.settle()
+                    got = [(m.header.hop_by_hop_identifier, getattr(m, "result_code", None)) for m in WORLD.frames(s.out)]
+                    if got != [(9100, 2001), (9101, 2001)]:
+                        why = "probe answers on the wire: %r" % (got,)
     except Exception as e:
         why = "I/O loop or worker body ended by %s: %s" % (type(e).__name__, str(e)[:80])
     return hx.check(inputs, (why,), ("",), "after the fault(s) a connecting peer must complete CER/CEA and be served as on a fresh node")
@@ -272,13 +271,15 @@ def specs(tier, seed, carve):
         for lo in range(0, ms if (slots == 1 or not q) else 30, width):
             out.append(dict(id="race/%s/p%d/%d" % (kind, slots, lo), fn="race", params={"race": kind, "slots": slots, "maxstep": ms, "lo": lo, "hi": min(ms, lo + width)}, timeout=1500 if q else 8000,
                             bound=("first preemption at step %d..%d; " % (lo, min(ms, lo + width) - 1)) + "%s: the connection's read thread (real gate, _receive_message, receive_cea/receive_cer, close_connection_socket, remove_peer_connection as cooperative generators) against the I/O thread (_handle_connections) - every placement of %d preemption(s) over the statements touching shared state" % (kind, slots)))
-    for nreq in ((1, 2) if q else (1, 2, 3)):
+    for nreq in (1, 2, 3):
       for limit in (0, 1, 2):
         out.append(dict(id="threading_app/%d/limit%d" % (nreq, limit), fn="threading_app", params={"nreq": nreq, "limit": limit}, timeout=900 if nreq < 3 else 6000,
                         bound="thread limit " + str(limit) + " x %d requests with handler outcome in {answer, None, raises, thread cannot be started} and connection loss in {none, while the handler runs, before the thread starts} each, then a probe of limit+2 requests" % nreq))
+    total = len(B.cer(PEER, hbh=7, e2e=7).as_bytes()) + len(B.ccr(PEER, 55, 55).as_bytes()) + 1
     for fi, fn_ in enumerate(FAULTS):
-        out.append(dict(id="io_fault/" + fn_, fn="io_fault", params={"fault": fi}, timeout=900,
-                        bound="fault %s x cut point %s x optional second fault of any kind, then a reconnect-and-serve probe through the real I/O loop" % (fn_, POINTS)))
+        for lo in range(0, total, 120):
+            out.append(dict(id="io_fault/%s/%d" % (fn_, lo), fn="io_fault", params={"fault": fi, "lo": lo, "hi": min(total, lo + 120)}, timeout=900,
+                            bound="fault %s after every byte offset in [%d, %d) of the stream CER + request (incl. while the CEA is written, and after the request was handed to the application) x optional second fault of any kind at the same offset, then a reconnect-and-serve probe through the real I/O loop" % (fn_, lo, min(total, lo + 120))))
     return out
 
 
@@ -349,32 +350,34 @@ def second_conn_survives(loss: int, which: int, st2: int) -> bool:
     inputs = (loss, which, st2)
     why = ""
     try:
-        # one peer, two established connections (the second accepted while the first is registered); one of them is lost by
-        # EOF / read error / a node-initiated close: the connection thread must survive (no lock taken twice, no exception)
-        # and the other connection keeps being served
-        h = H.Hist(init="ready_inbound", persistent=False)
-        n, app = h.n, h.app
-        first = h.newest()
-        h.ev_accept()
-        h.ev_cer(PEER, [4])
-        second = h.newest()
-        if s2:
-            n.send_dwr(second)
-            h.settle()
-        victim, other = (first, second) if wh == 0 else (second, first)
-        if ls == 0:
-            h.ev_gone(victim)
-        elif ls == 1:
-            h.ev_err(victim)
-        else:
-            n.close_connection_socket(victim, B.DISCONNECT_REASON_UNKNOWN)
-            h.settle()
-        before = len(app.requests)
-        h._push(other, B.ccr(PEER, 9100, 9100).as_bytes())
-        if len(app.requests) != before + 1:
-            why = "the surviving connection is no longer served"
-        elif other.ident not in n.connections:
-            why = "the surviving connection was dropped"
+        # all inputs are fixed above: the rest of the path runs natively
+        with hx.untraced():
+            # one peer, two established connections (the second accepted while the first is registered); one of them is lost by
+            # EOF / read error / a node-initiated close: the connection thread must survive (no lock taken twice, no exception)
+            # and the other connection keeps being served
+            h = H.Hist(init="ready_inbound", persistent=False)
+            n, app = h.n, h.app
+            first = h.newest()
+            h.ev_accept()
+            h.ev_cer(PEER, [4])
+            second = h.newest()
+            if s2:
+                n.send_dwr(second)
+                h.settle()
+            victim, other = (first, second) if wh == 0 else (second, first)
+            if ls == 0:
+                h.ev_gone(victim)
+            elif ls == 1:
+                h.ev_err(victim)
+            else:
+                n.close_connection_socket(victim, B.DISCONNECT_REASON_UNKNOWN)
+                h.settle()
+            before = len(app.requests)
+            h._push(other, B.ccr(PEER, 9100, 9100).as_bytes())
+            if len(app.requests) != before + 1:
+                why = "the surviving connection is no longer served"
+            elif other.ident not in n.connections:
+                why = "the surviving connection was dropped"
     except Exception as e:
         why = "connection thread / worker ended by %s: %s" % (type(e).__name__, str(e)[:80])
     return hx.check(inputs, (why,), ("",), "losing one of a peer's two connections must not stop the node serving the other")
